@@ -15,7 +15,8 @@ pub const FLOORS: &[&str] = &[
     "step:ran", "step:refused", "si:ran", "si:refused", "so:ran", "so:refused", "continue:ran",
     "continue:refused", "stepped:BR_taken", "stepped:BR_untaken", "stepped:JMP", "stepped:RET",
     "stepped:JSR", "stepped:JSRR", "stepped:CALL", "stepped:in_recursion", "si_beyond_end",
-    "end:detached_halt", "end:exit_command", "stack_on", "stack_off", "fixed", "random",
+    "end:detached_halt", "end:exit_command", "stack_on", "stack_off", "fixed", "random", "long_running",
+    "more_than_65536_instructions_between_pauses",
 ];
 
 pub struct Fixed {
@@ -101,17 +102,57 @@ fn nth_script(mut i: u64, alpha: &[Cmd], max_len: u32) -> Vec<Cmd> {
     Vec::new()
 }
 
+/// Programs that execute far more than 2^16 instructions between two legitimate pauses (a counter
+/// of instructions left must not be 16 bits wide anywhere): 300 x 100 iterations, 120k instructions.
+const LONG: &[(&str, bool, u16)] = &[
+    ("and r1 r1 #0\nld r2 outer\nol ld r3 inner\nil add r1 r1 #1\nadd r3 r3 #-1\nbrp il\nadd r2 r2 #-1\nbrp ol\nhalt\nouter .fill #300\ninner .fill #100\n", false, 0x3000),
+    (".orig x4000\njsr work\nadd r4 r4 #1\nhalt\nwork and r1 r1 #0\nld r2 outer\nol ld r3 inner\nil add r1 r1 #1\nadd r3 r3 #-1\nbrp il\nadd r2 r2 #-1\nbrp ol\nret\nouter .fill #300\ninner .fill #100\n", false, 0x4000),
+];
+
+fn long_scripts(origin: u16) -> Vec<Vec<Cmd>> {
+    vec![
+        vec![Cmd::Continue],
+        vec![Cmd::Step, Cmd::Continue],
+        vec![Cmd::StepInto(65535), Cmd::StepInto(65535), Cmd::Continue],
+        vec![Cmd::StepInto(40000), Cmd::StepInto(40000), Cmd::StepOut],
+        vec![Cmd::StepInto(3), Cmd::StepOut, Cmd::Continue],
+        vec![Cmd::BreakAdd(origin + 2), Cmd::Continue, Cmd::Continue, Cmd::BreakRemove(origin + 2), Cmd::Continue],
+        vec![Cmd::StepInto(1), Cmd::Step, Cmd::Step, Cmd::Continue],
+    ]
+}
+
+fn long_case(seed: u64, i: u64, k: u64) -> CaseOut {
+    let mut out = CaseOut::new();
+    let (src, stack, origin) = LONG[(k % LONG.len() as u64) as usize];
+    let scripts = long_scripts(origin);
+    let cmds = scripts[(k / LONG.len() as u64) as usize % scripts.len()].clone();
+    let lines = script_lines(&cmds, seed ^ i);
+    crate::dbgmon::case_fuel_scale(20);
+    out.class("long_running");
+    let checked = run_and_verify(&mut out, "C10", i, src, stack, &cmds, &lines, "\n", b"", false, &[]);
+    if let (Some(sess), Some(stats)) = (&checked.sess, &checked.stats) {
+        if sess.snaps.windows(2).any(|w| w[1].fetches - w[0].fetches > 65_536) {
+            out.class("more_than_65536_instructions_between_pauses");
+        }
+        finish(&mut out, sess, stats, &cmds, i, src, &lines);
+    }
+    out
+}
+
 pub fn run(cfg: &Cfg, col: &mut Collector) {
     let max_len: u32 = if cfg.miri { 1 } else if cfg.thorough() { 4 } else { 3 };
     let per_prog = count_scripts(14, max_len);
     let n_fixed = per_prog * FIXED.len() as u64;
     let n_random = cfg.n(2500, 100_000, 6);
+    let n_long = if cfg.miri { 0 } else { 14 };
     let seed = cfg.seed;
-    crate::util::run_cases(n_fixed + n_random, cfg.only_case, cfg.threads, col, move |i| {
+    crate::util::run_cases(n_fixed + n_random + n_long, cfg.only_case, cfg.threads, col, move |i| {
         if i < n_fixed {
             fixed_case(seed, i, per_prog, max_len)
-        } else {
+        } else if i < n_fixed + n_random {
             random_case(seed, i)
+        } else {
+            long_case(seed, i, i - n_fixed - n_random)
         }
     });
     col.exhaustive = true;
